@@ -42,7 +42,30 @@ fn enc_obs(out: &mut String, m: &DiameterMessage) {
     let third = m.encode_to(&mut w).is_ok();
     if third != first || (first && w.0 != buf) {
         let _ = write!(out, " ENC2DIFF one-octet-writer:{}:{}", third as u8, w.0.len());
+        return;
     }
+    // ... and through the transport's Codec::encode (what a connection puts on its stream for this message)
+    let fourth = RT.with(|rt| {
+        rt.block_on(async {
+            let mut v: Vec<u8> = Vec::new();
+            match diameter::transport::Codec::encode(&mut v, m).await {
+                Ok(()) => Some(v),
+                Err(_) => None,
+            }
+        })
+    });
+    match fourth {
+        Some(v) if first && v == buf => {}
+        None if !first => {}
+        Some(v) => {
+            let _ = write!(out, " ENC2DIFF codec-encode:1:{}", v.len());
+        }
+        None => out.push_str(" ENC2DIFF codec-encode:0:0"),
+    }
+}
+
+thread_local! {
+    static RT: tokio::runtime::Runtime = tokio::runtime::Builder::new_current_thread().enable_all().build().expect("runtime");
 }
 
 struct OneOctet(Vec<u8>);
@@ -59,7 +82,7 @@ impl std::io::Write for OneOctet {
     }
 }
 
-type DecodeJob = (Vec<u8>, Arc<Dictionary>, std::sync::mpsc::Sender<std::result::Result<diameter::Result<DiameterMessage>, String>>);
+type DecodeJob = (Vec<u8>, Arc<Dictionary>, u8, std::sync::mpsc::Sender<std::result::Result<diameter::Result<DiameterMessage>, String>>);
 
 thread_local! {
     static DECODER: std::cell::RefCell<Option<std::sync::mpsc::Sender<DecodeJob>>> = std::cell::RefCell::new(None);
@@ -70,10 +93,24 @@ fn decoder_thread() -> std::result::Result<std::sync::mpsc::Sender<DecodeJob>, S
     std::thread::Builder::new()
         .stack_size(2 * 1024 * 1024)
         .spawn(move || {
-            for (bytes, dict, back) in rx {
+            let rt = tokio::runtime::Builder::new_current_thread().enable_all().build().expect("runtime");
+            for (bytes, dict, via_codec, back) in rx {
                 let r = catch_unwind(AssertUnwindSafe(|| {
-                    let mut cur = Cursor::new(bytes);
-                    DiameterMessage::decode_from(&mut cur, dict)
+                    if via_codec == 1 {
+                        // the way a connection obtains a message: Codec::decode from an (in-memory) stream
+                        let mut rd: &[u8] = &bytes;
+                        rt.block_on(diameter::transport::Codec::decode(&mut rd, dict))
+                    } else if via_codec == 2 {
+                        // the frame does not start at position 0 of its reader (a capture file, a buffer with a prefix)
+                        let mut buf = vec![0x5au8; 7];
+                        buf.extend_from_slice(&bytes);
+                        let mut cur = Cursor::new(buf);
+                        cur.set_position(7);
+                        DiameterMessage::decode_from(&mut cur, dict)
+                    } else {
+                        let mut cur = Cursor::new(bytes);
+                        DiameterMessage::decode_from(&mut cur, dict)
+                    }
                 }));
                 let r = r.map_err(|e| {
                     if let Some(s) = e.downcast_ref::<String>() {
@@ -98,6 +135,14 @@ pub fn decode_isolated(
     bytes: Vec<u8>,
     dict: Arc<Dictionary>,
 ) -> std::result::Result<diameter::Result<DiameterMessage>, String> {
+    decode_isolated_via(bytes, dict, 0)
+}
+
+pub fn decode_isolated_via(
+    bytes: Vec<u8>,
+    dict: Arc<Dictionary>,
+    via_codec: u8,
+) -> std::result::Result<diameter::Result<DiameterMessage>, String> {
     let tx = DECODER.with(|d| -> std::result::Result<_, String> {
         let mut d = d.borrow_mut();
         if d.is_none() {
@@ -106,7 +151,7 @@ pub fn decode_isolated(
         Ok(d.as_ref().unwrap().clone())
     })?;
     let (back, res) = std::sync::mpsc::channel();
-    if tx.send((bytes, dict, back)).is_err() {
+    if tx.send((bytes, dict, via_codec, back)).is_err() {
         DECODER.with(|d| *d.borrow_mut() = None);
         return Err("decoder thread is gone".into());
     }
@@ -140,7 +185,12 @@ fn build_history(st: &State, t: &mut Toks) -> PResult<std::result::Result<(Diame
         }
         "DEC" => {
             let bytes = t.bytes()?;
-            match decode_isolated(bytes, Arc::clone(&dict)) {
+            // a frame that is exactly as long as it announces (20 ..= 1 MiB) is a frame a connection would hand to
+            // Codec::decode whole: every third such frame is decoded that way, every third from a reader in which it does
+            // not start at position 0 (the message must be the same one)
+            let announced = if bytes.len() >= 4 { ((bytes[1] as usize) << 16) | ((bytes[2] as usize) << 8) | bytes[3] as usize } else { 0 };
+            let via_codec = if announced == bytes.len() && (20..=1024 * 1024).contains(&announced) { ((announced / 4) % 3) as u8 } else { 0 };
+            match decode_isolated_via(bytes, Arc::clone(&dict), via_codec) {
                 Ok(Ok(m)) => m,
                 Ok(Err(_)) => return Ok(Err("R err".into())),
                 Err(p) => return Ok(Err(format!("PANIC {}", p.replace('\n', " ")))),
@@ -253,8 +303,10 @@ fn build_history(st: &State, t: &mut Toks) -> PResult<std::result::Result<(Diame
                             }
                         }
                         if all {
+                            let _ = g.length();
                             for a in built {
                                 g.add(a);
+                                let _ = g.length();
                             }
                             m.add_avp(c, vd, fl, g.into());
                             true
@@ -567,6 +619,37 @@ fn run_decode_variant(st: &State, t: &mut Toks, dribble: bool) -> PResult<String
     })))
 }
 
+/// XM <dict> <n> <f1> .. <fn>: the frames sit back to back in ONE reader and are decoded one after the other (a relay
+/// reading a capture file, a test reading several messages from one buffer); the observation is that of the LAST one.
+fn run_decode_multi(st: &State, t: &mut Toks) -> PResult<String> {
+    let dict = st.dicts.get(t.next()?).ok_or_else(|| "unknown dict".to_string())?.clone();
+    let n = t.usize_dec()?;
+    let mut buf = Vec::new();
+    let mut ends = Vec::new();
+    for _ in 0..n {
+        buf.extend_from_slice(&t.bytes()?);
+        ends.push(buf.len() as u64);
+    }
+    let r = catch_unwind(AssertUnwindSafe(|| {
+        let mut cur = Cursor::new(buf);
+        let mut last = None;
+        for (i, e) in ends.iter().enumerate() {
+            // each frame is read from where it starts: the reader is put there (a caller that knows the frame boundaries)
+            cur.set_position(if i == 0 { 0 } else { ends[i - 1] });
+            let r = DiameterMessage::decode_from(&mut cur, Arc::clone(&dict));
+            let failed = r.is_err();
+            last = Some(r);
+            if failed || cur.position() > *e {
+                break;
+            }
+        }
+        last.unwrap()
+    }));
+    Ok(decoded_obs(r.map_err(|e| {
+        e.downcast_ref::<String>().cloned().or_else(|| e.downcast_ref::<&str>().map(|s| s.to_string())).unwrap_or_else(|| "panic".into())
+    })))
+}
+
 /// LEAFDEC decodes from a Cursor; LEAFDECD through a reader that hands out one octet per read() call
 fn leaf_dec(t: &mut Toks, dribble: bool) -> PResult<String> {
     if !dribble {
@@ -616,7 +699,7 @@ fn leaf_dec_from<R: std::io::Read + std::io::Seek>(t: &mut Toks, mk: impl Fn(Vec
     }
 }
 
-pub fn value_encode(v: &AvpValue, buf: &mut Vec<u8>) -> diameter::Result<()> {
+pub fn value_encode<W: std::io::Write>(v: &AvpValue, buf: &mut W) -> diameter::Result<()> {
     match v {
         AvpValue::Address(a) => a.encode_to(buf),
         AvpValue::AddressIPv4(a) => a.encode_to(buf),
@@ -646,6 +729,12 @@ fn leaf_enc(t: &mut Toks) -> PResult<String> {
             let mut out = String::from("OK ");
             hex(&mut out, &buf);
             let _ = write!(out, " {:x}", v.length());
+            // the same value through a writer that accepts one octet per write() call
+            let mut w = OneOctet(Vec::new());
+            let again = value_encode(&v, &mut w).is_ok();
+            if !again || w.0 != buf {
+                let _ = write!(out, " WRITERDIFF:{}:{}", again as u8, w.0.len());
+            }
             Ok(out)
         }
         Err(_) => Ok("ERR".into()),
@@ -806,6 +895,8 @@ pub fn handle(st: &mut State, line: &str) -> String {
             "SV" => crate::stream::serve(st, &mut t),
             "CL" => crate::client::run(st, &mut t),
             "TLS" => crate::net::tls_cell(st, &mut t),
+            "TLSPLAIN" => crate::net::tls_plain(st, &mut t),
+            "TLSROT" => crate::net::tls_rotate(st, &mut t),
             "NET" => crate::net::scenario(st, &mut t),
             "RECONN" => crate::net::reconn(st, &mut t),
             "TLSDOMAIN" => {
@@ -819,6 +910,17 @@ pub fn handle(st: &mut State, line: &str) -> String {
             "X" => run_decode(st, &mut t),
             "XO" => run_decode_variant(st, &mut t, false),
             "XD" => run_decode_variant(st, &mut t, true),
+            "XM" => run_decode_multi(st, &mut t),
+            // DGLOBAL <op>: one load / add applied to the library's process-wide DEFAULT_DICT (public, mutable)
+            "DGLOBAL" => {
+                let op = parse_dop(&mut t)?;
+                let mut d = diameter::dictionary::DEFAULT_DICT.write().map_err(|_| "DEFAULT_DICT poisoned".to_string())?;
+                match op {
+                    DOp::Load(x) => d.load_xml(&x),
+                    DOp::Add(a) => d.add_avp(a),
+                }
+                Ok("OK".into())
+            }
             "LEAFDEC" => leaf_dec(&mut t, false),
             "LEAFDECD" => leaf_dec(&mut t, true),
             "LEAFENC" => leaf_enc(&mut t),
